@@ -94,6 +94,21 @@ impl Rng {
         }
         v
     }
+    /// random bytes; 1 in 12 carries the storage-header pattern (or a prefix of it) somewhere inside
+    pub fn bytes_magic(&mut self, n: usize) -> Vec<u8> {
+        let mut v = self.bytes(n);
+        if n >= 1 && self.chance(1, 12) {
+            let pat = [0x44u8, 0x4C, 0x54, 0x01];
+            let k = (1 + self.usize_below(4)).min(n);
+            let at = match self.below(3) {
+                0 => 0,
+                1 => n - k,
+                _ => self.usize_below(n - k + 1),
+            };
+            v[at..at + k].copy_from_slice(&pat[..k]);
+        }
+        v
+    }
     pub fn shuffle<T>(&mut self, v: &mut [T]) {
         for i in (1..v.len()).rev() {
             let j = self.usize_below(i + 1);
@@ -112,7 +127,10 @@ impl Rng {
     }
     /// "interesting" 64-bit patterns: boundaries first, then random
     pub fn special64(&mut self) -> u64 {
-        match self.below(12) {
+        match self.below(14) {
+            // the storage-header pattern "DLT\x01" as a little- / big-endian 32-bit field value
+            12 => 0x0154_4C44,
+            13 => 0x444C_5401,
             0 => 0,
             1 => u64::MAX,
             2 => 1u64 << 63,
